@@ -346,7 +346,10 @@ impl FileDesc {
 
     pub fn to_file_xml(&self, now: SystemTime) -> fdtinstance::File {
         let oti_attributes = match self.oti.fec_encoding_id {
-            oti::FECEncodingID::RaptorQ => Some(self.oti.get_attributes()), // for RaptorQ we need to add OTI for each object
+            // for RaptorQ and Raptor we need to add OTI for each object
+            oti::FECEncodingID::RaptorQ | oti::FECEncodingID::Raptor => {
+                Some(self.oti.get_attributes())
+            }
             _ => self
                 .object
                 .config
